@@ -115,6 +115,29 @@ Proof. intros H. unfold names_of. apply in_flat_map. exists t. split; [assumptio
 Lemma in_names_ns types t x : In t types -> In x (t_ns t) -> In x (names_of types).
 Proof. intros H Hx. unfold names_of. apply in_flat_map. exists t. split; [assumption|right; assumption]. Qed.
 
+Lemma firstn_in' {A} (x : A) n l : In x (firstn n l) -> In x l.
+Proof.
+  revert l; induction n as [|n IH]; intros [|a l]; cbn [firstn In]; try tauto.
+  intros [H|H]; [left; assumption | right; apply IH; assumption].
+Qed.
+
+Lemma split_on_none c s : ~ In c s -> split_on c s = [s].
+Proof.
+  induction s as [|x r IH]; intros H; cbn [split_on]; [reflexivity|].
+  rewrite IH by (intros X; apply H; right; exact X).
+  destruct (N.eqb_spec x c) as [->|]; [exfalso; apply H; left; reflexivity | reflexivity].
+Qed.
+
+Lemma ident_like_stem_valid s : ident_like s -> stem_valid s = true.
+Proof.
+  intros (Hne & Hs & Hd). unfold stem_valid.
+  destruct (str_eqb_spec s []); [contradiction|].
+  destruct (str_eqb_spec s [46]) as [->|]; [exfalso; apply Hd; left; reflexivity|].
+  destruct (str_eqb_spec s [46; 46]) as [->|]; [exfalso; apply Hd; left; reflexivity|].
+  destruct (existsb (N.eqb 47) s) eqn:E; [|reflexivity].
+  apply existsb_exists in E. destruct E as (x & Hx & Ex). apply N.eqb_eq in Ex. subst x. contradiction.
+Qed.
+
 Section PATH.
   Variable strop : str -> str.
   Variable es : bool.
@@ -126,9 +149,27 @@ Section PATH.
     = outdir ++ map (pstrop strop es) (t_ns t) ++ [pstrop strop es (base_name t) ++ ext].
   Proof. intros H. unfold out_path, make_path. rewrite (with_suffix_no_dot _ _ H). reflexivity. Qed.
 
-  Theorem ns_path_shape k : ~ In DOT stem ->
+  Lemma ns_path_valid k : stem_valid stem = true ->
+    ns_path strop ext stem outdir k = outdir ++ map strop k ++ [with_suffix stem ext].
+  Proof.
+    intros H. unfold ns_path, stem_valid in *. apply andb_prop in H. destruct H as [H Hs].
+    apply andb_prop in H. destruct H as [H _]. apply andb_prop in H. destruct H as [Hne Hd].
+    apply negb_true_iff in Hs, Hne, Hd.
+    assert (Hsl : ~ In SLASH stem).
+    { intros X. assert (existsb (N.eqb 47) stem = true); [|congruence].
+      apply existsb_exists. exists SLASH. split; [exact X | reflexivity]. }
+    assert (Hsp : split_on 47 stem = [stem]) by (apply split_on_none; exact Hsl).
+    assert (Ha : stem_abs stem = false).
+    { unfold stem_abs. destruct stem as [|x r]; [reflexivity|]. destruct (N.eqb_spec x 47) as [->|]; [|reflexivity].
+      exfalso. apply Hsl. left; reflexivity. }
+    rewrite Ha. unfold stem_parts. rewrite Hsp. cbn [filter]. rewrite Hne, Hd. cbn [orb negb].
+    unfold with_suffix_last. rewrite <- !app_assoc. rewrite app_assoc, rev_app_distr. cbn [rev app].
+    rewrite rev_involutive, <- app_assoc. reflexivity.
+  Qed.
+
+  Theorem ns_path_shape k : stem_valid stem = true -> ~ In DOT stem ->
     ns_path strop ext stem outdir k = outdir ++ map strop k ++ [stem ++ ext].
-  Proof. intros H. unfold ns_path. rewrite (with_suffix_no_dot _ _ H). reflexivity. Qed.
+  Proof. intros V H. rewrite (ns_path_valid k V). rewrite (with_suffix_no_dot _ _ H). reflexivity. Qed.
 
   Theorem path_injective types t1 t2 :
     (forall x y, In x (names_of types) -> In y (names_of types) ->
@@ -180,7 +221,49 @@ Section PATH.
         apply ident_like_safe, Hid, Hx.
       - constructor; [|constructor].
         rewrite with_suffix_no_dot by apply Hstem. apply ident_like_ext_safe; assumption. }
-    split; [reflexivity|]. split; [assumption|]. apply resolve_safe, HF.
+    split; [rewrite ns_path_valid by (apply ident_like_stem_valid; assumption); reflexivity|].
+    split; [assumption|]. apply resolve_safe, HF.
+  Qed.
+
+  (* EVERY plain-file-name stem (dots allowed), with an extension pathlib accepts (".x..."): the namespace file is a safe name *)
+  Definition valid_ext (e : str) : Prop := exists e', e = DOT :: e' /\ e' <> [] /\ ~ In SLASH e.
+
+  Lemma with_suffix_valid_safe : stem_valid stem = true -> valid_ext ext -> safe_comp (with_suffix stem ext).
+  Proof.
+    intros V (e' & -> & He' & Hsl). unfold stem_valid in V. apply andb_prop in V. destruct V as [V Hs].
+    apply andb_prop in V. destruct V as [V _]. apply andb_prop in V. destruct V as [Hne _].
+    apply negb_true_iff in Hs, Hne.
+    assert (Hns : ~ In SLASH stem).
+    { intros X. assert (existsb (N.eqb 47) stem = true); [|congruence].
+      apply existsb_exists. exists SLASH. split; [exact X | reflexivity]. }
+    destruct stem as [|c0 s0] eqn:Es; [discriminate|]. rewrite <- Es in *.
+    assert (G : forall p, p <> [] -> (forall x, In x p -> In x stem) -> safe_comp (p ++ DOT :: e')).
+    { intros p Hp Hin. destruct p as [|a p]; [congruence|]. destruct e' as [|b e'']; [congruence|].
+      split; [discriminate|]. split.
+      - intros X. apply in_app_or in X. destruct X as [X|X]; [apply Hns, Hin, X | apply Hsl, X].
+      - split; intros X; apply (f_equal (@length _)) in X; cbn [length app] in X; rewrite app_length in X; cbn [length] in X; lia. }
+    unfold with_suffix. destruct (rfind DOT stem) as [i|].
+    - destruct (Nat.ltb 0 i && Nat.ltb (S i) (length stem))%bool eqn:E.
+      + apply andb_prop in E. destruct E as [E1 E2]. apply Nat.ltb_lt in E1. apply Nat.ltb_lt in E2. apply G.
+        * intros X. apply (f_equal (@length _)) in X. rewrite firstn_length in X. cbn [length] in X. lia.
+        * intros x Hx. eapply firstn_in'; eassumption.
+      + apply G; [rewrite Es; discriminate | auto].
+    - apply G; [rewrite Es; discriminate | auto].
+  Qed.
+
+  Theorem ns_path_inside_valid k :
+    (forall x, In x k -> ident_like (strop x)) -> stem_valid stem = true -> valid_ext ext ->
+    exists rel, ns_path strop ext stem outdir k = outdir ++ rel /\
+                Forall safe_comp rel /\
+                forall st, resolve st rel = rev rel ++ st.
+  Proof.
+    intros Hid V Hext. exists (map strop k ++ [with_suffix stem ext]).
+    assert (HF : Forall safe_comp (map strop k ++ [with_suffix stem ext])).
+    { apply Forall_app. split.
+      - apply Forall_forall. intros c Hc. apply in_map_iff in Hc. destruct Hc as (x & <- & Hx).
+        apply ident_like_safe, Hid, Hx.
+      - constructor; [|constructor]. apply with_suffix_valid_safe; assumption. }
+    split; [rewrite ns_path_valid by assumption; reflexivity|]. split; [assumption|]. apply resolve_safe, HF.
   Qed.
 
   Theorem include_path_eq_output_path t :
